@@ -390,6 +390,12 @@ def selection(run, model, rule="C03.selection", rule_src="C03.selection-source")
             return base_ev(t)
         return ev
 
+    # locals that live beyond the loop (bound outside its body too): only those can remember the constructor
+    body_ids = set(id(sub) for st in head.stmt.body for sub in ast.walk(st))
+    outer_locals = set()
+    for sub in ast.walk(fi.node):
+        if isinstance(sub, ast.Name) and isinstance(sub.ctx, ast.Store) and id(sub) not in body_ids:
+            outer_locals.add(sub.id)
     n_rows = 0
     mismatches = []
     for name_cls in NAME_CLASSES:
@@ -413,7 +419,7 @@ def selection(run, model, rule="C03.selection", rule_src="C03.selection-source")
                                 out = consumers.get(recv, "collected-unknown")
                         for nn in p.nodes:
                             # ``<some local> = value`` : the constructor candidate is remembered
-                            if nn.kind == "stmt" and isinstance(nn.ast, ast.Assign) and len(nn.ast.targets) == 1 and isinstance(nn.ast.targets[0], ast.Name) and isinstance(nn.ast.value, ast.Name):
+                            if nn.kind == "stmt" and isinstance(nn.ast, ast.Assign) and len(nn.ast.targets) == 1 and isinstance(nn.ast.targets[0], ast.Name) and isinstance(nn.ast.value, ast.Name) and nn.ast.targets[0].id in outer_locals:
                                 vt = strip_sites(p.env.get(nn.ast.targets[0].id, ("x",)))
                                 if vt[0] == "call" and vt[1] == ("builtin", "getattr") and len(vt[2]) >= 2 and vt[2][0] == cls_p and name_of(vt[2][1]):
                                     out = "init"
